@@ -39,6 +39,9 @@ def run(ctx):
     p11(ctx, R)
     g7(ctx, R)
     t3p(ctx, R)
+    # the tree of THIS parse only: every parser attribute a handler writes (incl. result) is re-initialised per parse (rule H2 of C13)
+    from .c13 import h2
+    h2(ctx, R)
 
 
 def container_writes(ctx, attr, modules):
